@@ -109,6 +109,13 @@ func Main(prop string) {
 					for v := 0; v < variants; v++ {
 						check(run, prop, &cs, int(run.Seed)+v)
 					}
+					// keyword variant: every letter spelled as a whole (compound-)keyword-like word
+					for _, c := range cs.Inp {
+						if c == "L" {
+							check(run, prop, &cs, 100+(len(line)+int(run.Seed))%len(lexconc.KeywordSpellings))
+							break
+						}
+					}
 				}
 			}()
 		}
